@@ -40,6 +40,7 @@ mod c19;
 #[cfg(feature = "c20")]
 mod c20;
 mod common;
+mod trace;
 mod selftest;
 
 use vcore::main_entry;
